@@ -68,7 +68,7 @@ func crossProgram(consts, arity int) runCase {
 }
 
 func runC11(c *Ctx) {
-	c.Rule = "(grid) chain programs of length K whose iterate sizes straddle the limits exactly: maxIterations in {0,1,K-1,K,K+1,K+2} x maxFacts in {0,1,final-1,final,final+1} (exhaustive for K in 1..6); cross-product programs exceeding maxFacts; (ill) rules with an unbound head variable over 0/1/2/5 matches, expression errors at the first / a later combination; (rand) random programs under random small limits; (ctor) the same limited scenario through AuthorizerFor, Authorizer and NewVerifier must agree with each other and the model; (time) heavy joins under a small duration limit must return a limit error within the limit plus slack; after every case the goroutine profile must show no goroutine left in datalog.combine / World.Run. Non-trivial = the outcome is a limit error or the run needed >= 2 rounds; distinct = distinct canonical encodings."
+	c.Rule = "(grid) chain programs of length K whose iterate sizes straddle the limits exactly: maxIterations in {0,1,K-1,K,K+1,K+2} x maxFacts in {0,1,final-1,final,final+1} (exhaustive for K in 1..6); cross-product programs exceeding maxFacts; (ill) rules with an unbound head variable over 0/1/2/5 matches, expression errors at the first / a later combination; (rand) random programs under random small limits; (ill-seq) every sequence of up to 3 combinations {derives, filtered, expression error} under a bound / unbound head; (ctor) the same limited scenario through AuthorizerFor, Authorizer and NewVerifier, after a Reset, and as the second round of a reused authorizer must agree with each other and the model; (time) heavy joins under a small duration limit must return a limit error within the limit plus slack; after every case the goroutine profile must show no goroutine left in datalog.combine / World.Run. Non-trivial = the outcome is a limit error or the run needed >= 2 rounds; distinct = distinct canonical encodings."
 	r := NewRng(c.Seed)
 	leaks := 0
 	checkLeak := func(stream, sx string) {
@@ -140,6 +140,43 @@ func runC11(c *Ctx) {
 			Exprs: []Expr{{{K: 'v', T: V("x")}, {K: 'v', T: S("a")}, {K: 'b', B: "lt"}}}}}
 		emitRun("ill", rc)
 	}
+	// (ill-seq) every short sequence of combinations {derives, filtered out, expression error}
+	// under a head that is bound / unbound: whatever makes the consumer stop (invalid rule,
+	// error) while the producer still has a combination or an error to send must not strand it
+	kinds := []int64{1, 20, 0} // 10/$x >= 1: true, false, Div by zero
+	var seqs [][]int64
+	for l := 1; l <= 3; l++ {
+		idx := make([]int, l)
+		for {
+			sq := make([]int64, l)
+			for i, k := range idx {
+				sq[i] = kinds[k]
+			}
+			seqs = append(seqs, sq)
+			p := l - 1
+			for p >= 0 && idx[p] == len(kinds)-1 {
+				idx[p] = 0
+				p--
+			}
+			if p < 0 {
+				break
+			}
+			idx[p]++
+		}
+	}
+	for _, sq := range seqs {
+		for _, head := range []string{"x", "unbound"} {
+			var rc runCase
+			for i, v := range sq {
+				// distinct facts with the same divisor behaviour: second column disambiguates
+				rc.Facts = append(rc.Facts, Pred{Name: "p", Terms: []Term{I(v), I(int64(i))}})
+			}
+			rc.MaxFacts, rc.MaxIter = 1000, 100
+			rc.Rules = []Rule{{Head: Pred{Name: "q", Terms: []Term{V(head), V("i")}}, Body: []Pred{{Name: "p", Terms: []Term{V("x"), V("i")}}},
+				Exprs: []Expr{{{K: 'v', T: I(10)}, {K: 'v', T: V("x")}, {K: 'b', B: "div"}, {K: 'v', T: I(1)}, {K: 'b', B: "ge"}}}}}
+			emitRun("ill-seq", rc)
+		}
+	}
 	// (rand) random programs under random small limits
 	n := 1200
 	if c.Thorough {
@@ -169,6 +206,30 @@ func runC11(c *Ctx) {
 		a.MaxFacts = Pick(r, []int{0, 1, 3, 6, 10, 1000})
 		a.MaxIter = Pick(r, []int{0, 1, 2, 100})
 		a = withOps(a, AuthOp{K: "authorize"}, AuthOp{K: "query", Rule: g.rule()})
+		// limits survive Reset: the same scenario after a Reset of the fresh authorizer, and as
+		// the second round of a reused authorizer, must end as on a fresh one
+		{
+			ar := a
+			ar.Ctor = "for"
+			ar.Ops = append([]AuthOp{{K: "reset"}}, a.Ops...)
+			fresh := a
+			fresh.Ctor = "for"
+			resF, _ := emitAuth(c, "reset-ref", fresh)
+			resR, sxR := emitAuth(c, "reset-first", ar)
+			checkLeak("reset", sxR)
+			if resF != "environment-timeout" && resR != "environment-timeout" && resF != resR {
+				c.Violate("C11/limits-lost-on-reset", "limits given at creation are not honoured after Reset: fresh -> "+resF+", after Reset -> "+resR,
+					map[string]interface{}{"verb": "AUTHSEQ", "case": sxR, "go": resR, "reference_go": resF})
+			}
+			a2 := a
+			a2.Ctor = "for"
+			a2.Ops = append(append(append([]AuthOp{}, a.Ops...), AuthOp{K: "reset"}), a.Ops...)
+			res2, sx2 := emitAuth(c, "reset-second", a2)
+			if resF != "environment-timeout" && res2 != "environment-timeout" && res2 != resF+" "+resF {
+				c.Violate("C11/limits-lost-on-reset", "the second round of a reused authorizer does not end like the first: fresh -> "+resF+", two rounds -> "+res2,
+					map[string]interface{}{"verb": "AUTHSEQ", "case": sx2, "go": res2, "reference_go": resF})
+			}
+		}
 		var first, firstSx string
 		for _, ctor := range []string{"for", "auth", "verifier"} {
 			ac := a
